@@ -6,9 +6,9 @@ Import ListNotations.
 Theorem src_b_fixed_is_order_independent :
   forall (Res : Type) (F : tkind -> tcall -> option Z -> list Z -> Res) (t : tkind) (b : Z)
          (cs1 cs2 : list (tcall * list Z)) (c : tcall * list Z),
-    snd (tstep Res F tcfg_src t (tfinal Res F tcfg_src t (Some b) cs1) c) = tpure Res F t b c /\
-    snd (tstep Res F tcfg_src t (tfinal Res F tcfg_src t (Some b) cs2) c) = tpure Res F t b c /\
-    tresults Res F tcfg_src t (Some b) cs1 = map (tpure Res F t b) cs1 /\
+    snd (tstep Res F tcfg_src t (tfinal Res F tcfg_src t (Some b) cs1) c) = tpure Res F tcfg_src t b c /\
+    snd (tstep Res F tcfg_src t (tfinal Res F tcfg_src t (Some b) cs2) c) = tpure Res F tcfg_src t b c /\
+    tresults Res F tcfg_src t (Some b) cs1 = map (tpure Res F tcfg_src t b) cs1 /\
     (Permutation cs1 cs2 -> Permutation (tresults Res F tcfg_src t (Some b) cs1) (tresults Res F tcfg_src t (Some b) cs2)).
 Proof. exact src_b_order_independent_lemma. Qed.
 Print Assumptions src_b_fixed_is_order_independent.
@@ -18,6 +18,6 @@ Theorem src_first_call_fixes_b :
          (c0 : tcall * list Z) (cs : list (tcall * list Z)),
     t_sets tcfg_src t (fst c0) = true -> amax (snd c0) <> 0%Z ->
     tfinal Res F tcfg_src t None (c0 :: cs) = Some (amax (snd c0)) /\
-    tresults Res F tcfg_src t None (c0 :: cs) = map (tpure Res F t (amax (snd c0))) (c0 :: cs).
+    tresults Res F tcfg_src t None (c0 :: cs) = map (tpure Res F tcfg_src t (amax (snd c0))) (c0 :: cs).
 Proof. exact src_first_call_fixes_b_lemma. Qed.
 Print Assumptions src_first_call_fixes_b.
